@@ -57,6 +57,9 @@ class Verifier(Calls):
         self.assumed_reads = set()
         from .symex import isinstance_any
         self.spec_fns["leaf_isinstance_any"] = isinstance_any
+        self.spec_fns["sconcat"] = cl.sconcat
+        self.spec_fns["bconcat"] = cl.bconcat
+        self.spec_fns["bcp"] = cl.bcp
 
     # ---------------------------------------------------------- symbolic inputs
     def sym_value(self, name, tag):
@@ -269,10 +272,15 @@ class Verifier(Calls):
                 self.cur_sigs[fnd["id"]] = self.spec_bool(parse_expr(fnd["signature"]), entry_ctx)
             self.entry_pc = list(self.st.pc)
             outcome = ("normal", SV(Val.none, "none"))
+            is_gen = self.is_generator(fnode)
+            if is_gen:
+                fr.locals["_out"] = PSeq(so.EMPTY_SEQ)
             try:
                 self.exec_block(fnode.body)
+                if is_gen:
+                    outcome = ("normal", SV(Val.tup(fr.locals["_out"].seq), "iter"))
             except PyReturn as r:
-                outcome = ("normal", r.value)
+                outcome = ("normal", r.value if not is_gen else SV(Val.tup(fr.locals["_out"].seq), "iter"))
             except PyRaise as r:
                 outcome = ("raise", r.exc, r.note)
             self.exit_kinds[outcome[0]] += 1
@@ -407,11 +415,19 @@ class Verifier(Calls):
         ax.append(z3.Length(so.dict_order(so.EMPTY_KW)) == 0)
         ax.append(z3.ForAll([km], (z3.Length(so.dict_order(km)) == 0) == (km == so.EMPTY_KW)))
         ax.extend(cl.deliver_axioms())
+        ax.extend(cl.concat_axioms())
         ea = z3.Const("bea", SeqV)
-        ax.append(z3.ForAll([ea], cl._str_encode(z3.StringVal(""), ea) == z3.StringVal("")))     # "".encode(...) == b""
-        ax.append(z3.ForAll([ea], cl._bytes_decode(z3.StringVal(""), ea) == z3.StringVal("")))
+        es = z3.Const("bes", so.S)
+        # "".encode(...) == b"" and b"".decode(...) == "" (a literal in a trigger does not match reliably: guard instead)
+        ax.append(z3.ForAll([es, ea], z3.Implies(z3.Length(es) == 0, cl._str_encode(es, ea) == z3.StringVal("")),
+                            patterns=[cl._str_encode(es, ea)]))
+        ax.append(z3.ForAll([es, ea], z3.Implies(z3.Length(es) == 0, cl._bytes_decode(es, ea) == z3.StringVal("")),
+                            patterns=[cl._bytes_decode(es, ea)]))
         for name, vars_, expr in self.reg.axioms:
-            ax.append(self.axiom_term(vars_, expr))
+            t = self.axiom_term(vars_, expr)
+            if name in self.reg.link_axioms:
+                _LINK[t.get_id()] = t
+            ax.append(t)
         return ax
 
     def axiom_term(self, vars_, expr, assumes=()):
@@ -457,38 +473,8 @@ def is_prestate_term(t):
 # --------------------------------------------------------------------------
 def discharge(obl, background, timeout_ms=10000, use_cvc5=True, want_model=True, seed=0):
     """-> Result. unsat(assumptions & background & not goal) == proved."""
-    t0 = time.time()
-    goal = obl.goal
-    s = z3.Solver()
-    s.set("timeout", timeout_ms)
-    s.set("random_seed", seed)
-    for a in obl.assumptions:
-        s.add(a)
-    s.add(z3.Not(goal))
-    s2 = z3.Solver()
-    s2.set("timeout", timeout_ms)
-    s2.set("random_seed", seed)
-    s2.add(z3.parse_smt2_string(to_smt2(obl, background)))
-    s = s2
-    r = s.check()
-    dt = time.time() - t0
-    if r == z3.unsat:
-        return Result(obl.name, "proved", "z3", dt, obl.kind, obl.line)
-    if r == z3.sat:
-        mdl = s.model()
-        # models of quantified problems can be spurious only if z3 says 'unknown'; sat is definite
-        return Result(obl.name, "refuted", "z3", dt, obl.kind, obl.line, model=model_summary(mdl), detail=str(obl.extra))
-    reason = s.reason_unknown()
-    # a candidate model from an incomplete quantifier instantiation is not a refutation
-    if use_cvc5 and os.path.exists(CVC5):
-        st, t2 = run_cvc5(s, timeout_ms)
-        if st == "unsat":
-            return Result(obl.name, "proved", "cvc5", dt + t2, obl.kind, obl.line)
-        if st == "sat":
-            return Result(obl.name, "refuted", "cvc5", dt + t2, obl.kind, obl.line, detail=str(obl.extra))
-        dt += t2
-    # quantifier-free retry: drop quantified background (sound for 'proved' only)
-    return Result(obl.name, "unknown", "z3", dt, obl.kind, obl.line, detail="z3: %s" % reason)
+    return discharge_smt2(obl.name, obl.kind, obl.line, to_smt2(obl, background), timeout_ms=timeout_ms, use_cvc5=use_cvc5, seed=seed,
+                          detail=str(obl.extra), retries=0)
 
 
 def pick_background(background, obl):
@@ -516,6 +502,7 @@ def axiom_keys(term):
 
 
 _AX_KEYS = {}
+_LINK = {}        # id -> term of "link" axioms (needing all their functions present); terms kept alive so that ids stay unique
 
 
 def to_smt2(obl, background, extra_assumptions=()):
@@ -540,7 +527,8 @@ def to_smt2(obl, background, extra_assumptions=()):
             if keys is None or not keys[1].eq(b):
                 keys = (axiom_keys(b), b)
                 _AX_KEYS[k] = keys
-            if not keys[0] or any(("(" + nm + " ") in text or ("|" + nm + "|") in text for nm in keys[0]):
+            quant = all if (k in _LINK and _LINK[k].eq(b)) else any
+            if not keys[0] or quant(("(" + nm + " ") in text or ("|" + nm + "|") in text for nm in keys[0]):
                 chosen.append(b)
                 changed = True
             else:
@@ -569,28 +557,34 @@ def to_smt2_ground(obl):
     return s.to_smt2()
 
 
-def discharge_smt2(name, kind, line, smt2, timeout_ms=10000, use_cvc5=True, seed=0, detail=""):
-    """-> Result, from the SMT-LIB2 text (runs in any process)"""
+def discharge_smt2(name, kind, line, smt2, timeout_ms=10000, use_cvc5=True, seed=0, detail="", retries=2):
+    """-> Result, from the SMT-LIB2 text (runs in any process).  Every attempt runs in a FRESH z3 context, so the verdict is a
+    function of the text and the seed only (z3's string solver is sensitive to what else lives in the context); a timeout is
+    retried with other seeds before it counts as undecided."""
     t0 = time.time()
-    s = z3.Solver()
-    s.set("timeout", timeout_ms)
-    s.set("random_seed", seed)
-    s.add(z3.parse_smt2_string(smt2))
-    r = s.check()
-    dt = time.time() - t0
-    if r == z3.unsat:
-        return Result(name, "proved", "z3", dt, kind, line)
-    if r == z3.sat:
-        return Result(name, "refuted", "z3", dt, kind, line, model=model_summary(s.model()), detail=detail)
-    reason = s.reason_unknown()
-    if use_cvc5 and os.path.exists(CVC5):
-        st, t2 = run_cvc5_text(smt2, timeout_ms)
-        if st == "unsat":
-            return Result(name, "proved", "cvc5", dt + t2, kind, line)
-        if st == "sat":
-            return Result(name, "refuted", "cvc5", dt + t2, kind, line, detail=detail)
-        dt += t2
-    return Result(name, "unknown", "z3", dt, kind, line, detail="z3: %s" % reason)
+    reason = ""
+    for attempt in range(1 + max(0, retries)):
+        ctx = z3.Context()
+        s = z3.Solver(ctx=ctx)
+        s.set("timeout", timeout_ms)
+        s.set("random_seed", seed + attempt)
+        s.add(z3.parse_smt2_string(smt2, ctx=ctx))
+        r = s.check()
+        dt = time.time() - t0
+        backend = "z3" if attempt == 0 else "z3 (retry seed+%d)" % attempt
+        if r == z3.unsat:
+            return Result(name, "proved", backend, dt, kind, line)
+        if r == z3.sat:
+            return Result(name, "refuted", backend, dt, kind, line, model=model_summary(s.model()), detail=detail)
+        reason = s.reason_unknown()
+        del s, ctx
+        if attempt == 0 and use_cvc5 and os.path.exists(CVC5) and "Val" not in smt2:
+            st, t2 = run_cvc5_text(smt2, timeout_ms)
+            if st == "unsat":
+                return Result(name, "proved", "cvc5", time.time() - t0, kind, line)
+            if st == "sat":
+                return Result(name, "refuted", "cvc5", time.time() - t0, kind, line, detail=detail)
+    return Result(name, "unknown", "z3", time.time() - t0, kind, line, detail="z3: %s" % reason)
 
 
 def run_cvc5_text(smt2, timeout_ms):
